@@ -69,7 +69,7 @@ def seq_of(data):
     return brine.load(data)[1]
 
 
-def one_run(totals, spawn, prefix):
+def one_run(totals, spawn, prefix, fail=()):
     """totals: messages per thread; spawn: {seq: child_seq}. returns (choices, result dict)"""
     code = Connection._send.__code__
     kinds = line_kinds()
@@ -102,6 +102,11 @@ def one_run(totals, spawn, prefix):
             if self.writing is not None:
                 viol.append(("packet-written-inside-another-packet", (self.writing, s)))
             self.writing = s
+            if s in fail:
+                # a write that fails WITHOUT ending the stream (what channel.send does for a frame of 4 GiB or more: struct.error)
+                self.writing = None
+                import struct
+                raise struct.error("'L' format requires 0 <= number <= 4294967295")
             try:
                 if s in spawn and s not in self.spawned:
                     self.spawned.add(s)
@@ -179,6 +184,24 @@ def oracle(ctx, totals, spawn, sched_list, res):
         mine = [m for m in w if m // 100 == t and m in exp[:sum(totals)]]
         if mine != sorted(mine):
             ctx.violation("per-thread-order-broken", case, observed=w, expected="issue order per thread", what="a thread's messages left out of order")
+    if res["locked"]:
+        ctx.violation("lock-left-held", case, observed="locked", expected="free", what="send lock still held after all senders returned")
+
+
+def oracle_failed_write(ctx, totals, fail, sched_list, res):
+    """one message's write fails without ending the stream (the error goes to whoever held the lock). Demanded: every OTHER
+    message is transmitted exactly once and nothing is left queued once all senders have returned; the lock is free."""
+    case = {"totals": totals, "spawn": {}, "schedule": sched_list, "fail": sorted(fail)}
+    if res["deadlock"]:
+        ctx.violation("deadlock-or-blocked-sender", case, observed=res["deadlock"], expected="every sender returns", what="a sender blocked or the run did not terminate")
+        return
+    exp = [m for m in expected_msgs(totals, {}) if m not in fail]
+    if res["queue"]:
+        ctx.violation("message-stranded-after-a-failed-write", case, observed={"wire": res["wire"], "queue": res["queue"], "errors": res["errors"]}, expected=sorted(exp),
+                      what="a write failed (stream still open): the lock holder left _send through the exception without re-testing the queue, and a message "
+                           "appended meanwhile by a sender that has already returned stays queued")
+    elif sorted(res["wire"]) != sorted(exp):
+        ctx.violation("message-lost-or-duplicated", case, observed=res["wire"], expected=sorted(exp), what="wire is not exactly the other issued messages")
     if res["locked"]:
         ctx.violation("lock-left-held", case, observed="locked", expected="free", what="send lock still held after all senders returned")
 
@@ -275,12 +298,26 @@ def run(ctx):
         exhaustive[str((totals, spawn))] = n < limit
         if model:
             run_model_compare(ctx, model, batch)
+    # a write that fails without ending the stream
+    for totals, fail, pb, limit in [([1, 1], {0}, 99, 4000 if ctx.quick else 10**6), ([2, 1], {1}, 2, 300 if ctx.quick else 30000)]:
+        n = 0
+        for sch, res in explore(lambda prefix: one_run(totals, {}, prefix, fail), len(totals), pb, limit):
+            n += 1
+            ctx.case((tuple(totals), "fail", tuple(sorted(fail)), tuple(sch)), nontrivial=True, sample={"totals": totals, "fail": sorted(fail), "schedule": sch, "wire": res["wire"], "queue": res["queue"]})
+            ctx.count("plan:%s+failed-write" % (totals,))
+            oracle_failed_write(ctx, totals, fail, sch, res)
+        exhaustive[str((totals, "fail", sorted(fail)))] = n < limit
     ctx.coverage_extra["plans_exhausted_within_bound"] = exhaustive
 
 
 def replay(ctx, rep):
     cs = rep["case"]
     spawn = {int(k): v for k, v in cs["spawn"].items()}
+    if cs.get("fail"):
+        rec, res = one_run(cs["totals"], {}, cs["schedule"], set(cs["fail"]))
+        oracle_failed_write(ctx, cs["totals"], set(cs["fail"]), [c[0] for c in rec], res)
+        ctx.case(("replay", tuple(cs["schedule"])), True)
+        return
     rec, res = one_run(cs["totals"], spawn, cs["schedule"])
     oracle(ctx, cs["totals"], spawn, [c[0] for c in rec], res)
     ctx.case(("replay", tuple(cs["schedule"])), True)
